@@ -870,3 +870,15 @@ package main
 // under its fingerprint: C09), so a relying party that selects the key by kid verifies the token
 //@ func (*RuntimeState).idpOpenIDCTokenHandler
 //@   atcall (*github.com/go-jose/go-jose/v4.SignerOptions).WithHeader requires (so *jose.SignerOptions, k jose.HeaderKey, v any) :: k == "kid" ==> isType[string](v) && asType[string](v) == keyFP(signerPublic(state.Signer))   #C12.kid-names-the-signing-key @C12
+
+// ---- C15: profiles and records are stored and looked up under the name they are given (round trip) ----------------
+//@ func (*RuntimeState).SaveUserProfile
+//@   atcall (*database/sql.Stmt).Exec requires (st *sql.Stmt, args []any) :: len(args) == 2 && isType[string](args[0]) && asType[string](args[0]) == username   #C15.profile-saved-under-the-given-name @C15
+//@ func (*RuntimeState).DeleteUserProfile
+//@   atcall (*database/sql.Stmt).Exec requires (st *sql.Stmt, args []any) :: len(args) == 1 && isType[string](args[0]) && asType[string](args[0]) == username   #C15.profile-deleted-under-the-given-name @C15
+//@ func (*RuntimeState).UpsertSigned
+//@   atcall (*database/sql.Stmt).Exec requires (st *sql.Stmt, args []any) :: len(args) == 5 && isType[string](args[0]) && asType[string](args[0]) == username && isType[int](args[1]) && asType[int](args[1]) == dataType && isType[int64](args[3]) && asType[int64](args[3]) == expirationEpoch   #C15.record-stored-under-the-given-name-and-type @C15,C07
+//@ func (*RuntimeState).LoadUserProfile
+//@   atcall (*database/sql.Stmt).QueryRow requires (st *sql.Stmt, args []any) :: len(args) == 1 && isType[string](args[0]) && asType[string](args[0]) == username   #C15.profile-read-under-the-given-name @C15
+//@ func (*RuntimeState).GetSigned
+//@   atcall (*database/sql.Stmt).QueryRow requires (st *sql.Stmt, args []any) :: len(args) == 3 && isType[string](args[0]) && asType[string](args[0]) == username && isType[int](args[1]) && asType[int](args[1]) == dataType   #C15.record-read-under-the-given-name-and-type @C15,C07
